@@ -81,6 +81,8 @@ class Sched:
     def point(self, label: tuple, options_fn=None):
         """Scheduling point.  ``options_fn()`` -> list of options (empty =
         blocked).  Returns the chosen option."""
+        if self.aborting:        # unwinding: clean-up code of the task (context-manager exits) must not block again
+            raise _Abort()
         t = self.current()
         t.label = label
         t.options_fn = options_fn or (lambda: [None])
